@@ -41,12 +41,26 @@ def _expected_by_construction(plan):
     return True
 
 
-def _sign(t, plan):
+def _sign(t, plan, style='per_input'):
+    """per_input: one sign() call per signer, naming the input. keys_no_index: one call per signer without naming an
+    input (the key signs whatever it can sign; keys that fit no input are not an error), inputs taken last to first.
+    one_call: every signer's key in a single call, same order."""
     from props import txplan
-    for k, inp in enumerate(plan['inputs']):
+    if style == 'per_input':
+        for k, inp in enumerate(plan['inputs']):
+            keys = txplan.lib_keys(plan, k)
+            for s in inp['signers']:
+                t.sign(keys[s], index_n=k)
+        return
+    handed = []
+    for k in reversed(range(len(plan['inputs']))):
         keys = txplan.lib_keys(plan, k)
-        for s in inp['signers']:
-            t.sign(keys[s], index_n=k)
+        handed += [keys[s] for s in plan['inputs'][k]['signers']]
+    if style == 'one_call':
+        t.sign(handed, fail_on_unknown_key=False)
+    else:
+        for key in handed:
+            t.sign([key], fail_on_unknown_key=False)
 
 
 def _lib_verify(t):
@@ -320,13 +334,22 @@ def _parse_for_verify(raw, plan, amounts):
 def check(ctx, case):
     from props import txplan
     plan = case['plan']
+    if case.get('sign_style', 'per_input') != 'per_input':
+        # keys handed over without naming an input are offered to every input: a key that also belongs to another
+        # input signs there as well
+        from copy import deepcopy
+        plan = deepcopy(plan)
+        offered = set(i['secrets'][s_] for i in plan['inputs'] for s_ in i['signers'])
+        for i in plan['inputs']:
+            i['signers'] = list(i['signers']) + [j for j, sec in enumerate(i['secrets'])
+                                                 if sec in offered and j not in i['signers']]
     tam = case.get('tamper')
     medium = case.get('medium', 'object')
     amounts = [i['value'] for i in plan['inputs']]
     expected = _expected_by_construction(plan)
     try:
         t = txplan.realise(plan)
-        _sign(t, plan)
+        _sign(t, plan, case.get('sign_style', 'per_input'))
         raw = t.raw()
     except Exception as e:
         if not expected:
@@ -666,7 +689,8 @@ def _strategy(ctx):
         return {'kind': 'verify', 'plan': plan, 'mode': mode, 'tamper': tamper, 'medium': medium,
                 # the object is (successfully) verified once before it is tampered with: verdicts may not be remembered
                 'verify_first': draw(st.booleans()), 'restore': draw(st.sampled_from([False, False, True])),
-                'resign_one': draw(st.sampled_from([None, None, 0, 1, 2]))}
+                'resign_one': draw(st.sampled_from([None, None, 0, 1, 2])),
+                'sign_style': draw(st.sampled_from(['per_input', 'per_input', 'keys_no_index', 'one_call']))}
     return cases()
 
 
